@@ -510,6 +510,74 @@ def np_ceil(ex, st, v, **kw):
     return -z3.ToReal(z3.ToInt(-to_real(v)))
 
 
+def _flat_bijection(ex, st, shape):
+    """ravel / unravel_index of a 2-d shape: mutually inverse bijections FLAT_ROW, FLAT_COL : [0, n0*n1) -> cells and FLAT_IDX back
+    (the row-major formula i = r*n1 + c is not needed by the callers and would make the queries non-linear)"""
+    key = tuple(str(x) for x in shape)
+    cache = getattr(ex, '_flat_bij', None)
+    if cache is None:
+        cache = ex._flat_bij = {}
+    if key in cache:
+        return cache[key]
+    n0, n1 = to_int(shape[0]), to_int(shape[1])
+    N = n0 * n1
+    ROW = z3.Function(fresh_name('FLAT_ROW'), z3.IntSort(), z3.IntSort())
+    COL = z3.Function(fresh_name('FLAT_COL'), z3.IntSort(), z3.IntSort())
+    IDX = z3.Function(fresh_name('FLAT_IDX'), z3.IntSort(), z3.IntSort(), z3.IntSort())
+    i, r, c = z3.Ints('fi fr fc')
+    st.assume(z3.ForAll([i], z3.Implies(z3.And(i >= 0, i < N), z3.And(ROW(i) >= 0, ROW(i) < n0, COL(i) >= 0, COL(i) < n1, IDX(ROW(i), COL(i)) == i)), patterns=[ROW(i)]))
+    st.assume(z3.ForAll([i], z3.Implies(z3.And(i >= 0, i < N), z3.And(ROW(i) >= 0, ROW(i) < n0, COL(i) >= 0, COL(i) < n1, IDX(ROW(i), COL(i)) == i)), patterns=[COL(i)]))
+    st.assume(z3.ForAll([r, c], z3.Implies(z3.And(r >= 0, r < n0, c >= 0, c < n1), z3.And(IDX(r, c) >= 0, IDX(r, c) < N, ROW(IDX(r, c)) == r, COL(IDX(r, c)) == c)),
+                        patterns=[IDX(r, c)]))
+    ex.assumed.append('model: ravel() and np.unravel_index of a 2-d array are mutually inverse bijections between flat positions and cells')
+    ex.spec_funcs['FLAT_IDX'] = _spec(lambda r_, c_: IDX(to_int(r_), to_int(c_)))
+    cache[key] = (ROW, COL, IDX, N)
+    return cache[key]
+
+
+def np_ravel(ex, st, a):
+    arr = as_array(st, a)
+    if arr.ndim == 1:
+        return arr
+    if arr.ndim != 2:
+        raise Unsupported('ravel n-d')
+    ROW, COL, IDX, N = _flat_bijection(ex, st, arr.shape)
+    return ArrayVal((N,), lambda i: arr.get(ROW(to_int(i)), COL(to_int(i))), arr.dtype)
+
+
+def np_unravel_index(ex, st, inds, shape, **kw):
+    if len(shape) != 2:
+        raise Unsupported('unravel_index n-d')
+    ia = as_array(st, inds)
+    ROW, COL, IDX, N = _flat_bijection(ex, st, shape)
+    j = z3.Int(fresh_name('u'))
+    if not ex.spec_mode:
+        ex.emit(st, 'index', z3.ForAll([j], z3.Implies(z3.And(j >= 0, j < to_int(ia.shape[0])), z3.And(to_int(ia.get(j)) >= 0, to_int(ia.get(j)) < N))),
+                kw.get('_node'), 'unravel_index: flat indices within the array')
+    return (ArrayVal(ia.shape, lambda q: ROW(to_int(ia.get(q))), 'int'), ArrayVal(ia.shape, lambda q: COL(to_int(ia.get(q))), 'int'))
+
+
+def np_argpartition(ex, st, a, kth, **kw):
+    """permutation P of the positions with a[P[i]] <= a[P[kth]] for i < kth and a[P[i]] >= a[P[kth]] for i > kth"""
+    arr = as_array(st, a)
+    if arr.ndim != 1:
+        raise Unsupported('argpartition n-d')
+    n = to_int(arr.shape[0])
+    kth = to_int(kth)
+    ex.emit(st, 'index', z3.And(kth >= 0, kth < n), kw.get('_node'), 'argpartition: kth within the array')
+    P = z3.Function(fresh_name('PART_PERM'), z3.IntSort(), z3.IntSort())
+    PI = z3.Function(fresh_name('PART_INV'), z3.IntSort(), z3.IntSort())
+    i = z3.Int('pi')
+    rng = lambda x: z3.And(x >= 0, x < n)
+    st.assume(z3.ForAll([i], z3.Implies(rng(i), z3.And(rng(P(i)), PI(P(i)) == i)), patterns=[P(i)]))
+    st.assume(z3.ForAll([i], z3.Implies(rng(i), z3.And(rng(PI(i)), P(PI(i)) == i)), patterns=[PI(i)]))
+    st.assume(z3.ForAll([i], z3.Implies(z3.And(rng(i), i < kth), to_z3(s_le(arr.get(P(i)), arr.get(P(kth))))), patterns=[P(i)]))
+    st.assume(z3.ForAll([i], z3.Implies(z3.And(rng(i), i > kth), to_z3(s_le(arr.get(P(kth)), arr.get(P(i))))), patterns=[P(i)]))
+    ex.assumed.append('model: np.argpartition(a, kth) returns a permutation whose kth element is in sorted position, smaller-or-equal before, greater-or-equal after')
+    ex.spec_funcs['PART_INV'] = _spec(lambda q: PI(to_int(q)))
+    return ArrayVal((n,), lambda q: P(to_int(q)), 'int')
+
+
 def torch_cat(ex, st, parts, axis=0, dim=None, **kw):
     ex.assumed.append('model: torch tensor operations used here (cat, argmax, slicing, masked assignment, comparison) behave as their numpy counterparts')
     return np_concatenate(ex, st, list(parts), axis=dim if dim is not None else axis, **kw)
@@ -715,7 +783,7 @@ def _logical(fn):
 LIB = {
     'np.logical_and': _logical(band), 'np.logical_or': _logical(bor), 'np.logical_not': _logical(bnot),
     'np.exp': np_exp, 'math.exp': np_exp, 'np.logaddexp': np_logaddexp, 'np.nonzero': np_nonzero,
-    'torch.cat': torch_cat, 'torch.argmax': torch_argmax, 'np.ceil': np_ceil, 'np.floor': np_floor, 'math.ceil': np_ceil, 'math.floor': np_floor,
+    'torch.cat': torch_cat, 'torch.argmax': torch_argmax, 'np.ceil': np_ceil, 'np.floor': np_floor, 'np.argpartition': np_argpartition, 'np.unravel_index': np_unravel_index, 'math.ceil': np_ceil, 'math.floor': np_floor,
     'np.array': np_array, 'np.asarray': np_asarray, 'np.fromiter': lambda ex, st, v, **kw: np_array(ex, st, v), 'np.arange': np_arange, 'np.full': np_full,
     'np.ones': np_ones, 'np.zeros': np_zeros, 'np.zeros_like': np_zeros_like, 'np.minimum': np_minimum,
     'np.maximum': np_maximum, 'np.copy': np_copy, 'np.sum': np_sum, 'np.any': np_any, 'np.all': np_all,
@@ -999,10 +1067,7 @@ def call_method(ex, st, obj, name, args, kwargs, node):
                 return s_truediv(np_sum(ex, st, arr), arr.shape[0])
             raise Unsupported('mean over symbolic length')
         if name == 'ravel' or name == 'flatten':
-            arr = as_array(st, obj)
-            if arr.ndim == 1:
-                return arr
-            raise Unsupported('ravel n-d')
+            return np_ravel(ex, st, obj)
         if name == 'tolist':
             return as_array(st, obj)
         if name in ('astype', 'cpu', 'numpy', 'detach', 'contiguous'):
